@@ -607,6 +607,10 @@ def job_invocation(ctx, rule):
                'other than a serialised context / an empty dict: '
                'deserialize_context fails on it before the job function is '
                'called, on every attempt', ctx.loc(sj))
+    # ... and every attribute of the context survives the round trip
+    # through the job row
+    from mstatic.rules import shared as _shx
+    _shx.context_round_trip(ctx, rule)
     des = [c for c in own_nodes(pj.node) if isinstance(c, ast.Call) and
            U.call_name(c) == 'deserialize']
     stores = [x for x in own_nodes(pj.node) if isinstance(x, ast.Assign) and
